@@ -34,7 +34,7 @@ prop('C02', ['K5', 'K6', 'NS1', 'K2', 'D2', 'T2', 'M7', 'K4', 'T1', 'T1e', 'T3',
      'atoms (T1) and their per-type caches cannot answer for a class that has died (T3, T3b).',
      ['equal dicts flatten equally for all inputs', 'None-removal law', 'predicate idempotence'])
 
-prop('C03', ['K1', 'K3', 'K4', 'K5', 'K7', 'K8', 'M7', 'F1', 'F14', 'F7', 'F10', 'T4', 'T2', 'NS1', 'D2', 'N1', 'N2', 'M1', 'K2'],
+prop('C03', ['K1', 'K3', 'K4', 'K5', 'K7', 'K8', 'M7', 'F1', 'F14', 'F7', 'F10', 'T4', 'T2', 'NS1', 'D2', 'N1', 'N2', 'M1', 'K2', 'D5'],
      'Sibling traversals agree, decided on the 5 x 11 arm matrix: per kind the same accessor on '
      'the same container class, the same key pipeline, the same arity source (K3); the same '
      'effective visiting order (K4), where a traversal that asks the shared key sort for another order gets it after every stage of the sort (T2) and every traversal hands its options down its own recursion unchanged (NS1) and every public entry point has the same option defaults (F14); the flatten variants read the dict-order mode the same way and record the namespace in the treespec under the same condition (D2); predicate first everywhere (K5); the same validations of a '
@@ -136,7 +136,7 @@ prop('C11', ['S1', 'S2', 'S3', 'K2', 'NS1'],
      'The loader looks custom types up in the recorded namespace (NS1).',
      ['cross-process behaviour', 'protocols', 'post-load equality'])
 
-prop('C12', ['G7', 'G1', 'G2', 'G3', 'G4', 'G8', 'G5', 'G6', 'L4', 'K6', 'K6py', 'NS1', 'D4'],
+prop('C12', ['G7', 'G1', 'G2', 'G3', 'G4', 'G8', 'G5', 'G6', 'L4', 'K6', 'K6py', 'NS1', 'D4', 'D5'],
      'Registry: validation dominates mutation and nothing fallible follows the first mutation '
      '(G1); no C-API failure result is ignored (G2); the Python mirror is written only after the '
      'engine call, under the lock, with the same key, by exactly two functions (G3); a mutation '
@@ -147,7 +147,7 @@ prop('C12', ['G7', 'G1', 'G2', 'G3', 'G4', 'G8', 'G5', 'G6', 'L4', 'K6', 'K6py',
      'The Python listing substitutes the insertion-ordered dict entries exactly when flattening in that namespace would (D4).',
      ['behaviour after arbitrary histories'])
 
-prop('C13', ['D1', 'D2', 'D3', 'D4', 'K2', 'NS1', 'G4'],
+prop('C13', ['D1', 'D2', 'D3', 'D4', 'K2', 'NS1', 'G4', 'D5'],
      'Dict-order mode: the context manager saves the namespace\'s own flag in the same locked '
      'block as the switch and restores exactly it in a finally, on every path (D1); all four '
      'traversals consult the mode of the caller\'s namespace with global inheritance and never '
